@@ -367,7 +367,7 @@ async fn proxy_tcp_connection_with_synack_internal(
         "[Proxy] proxy_tcp_connection_with_synack: Calling proxy_tcp_connection_data_forwarding for stream {}",
         stream_id
     );
-    proxy_tcp_connection_data_forwarding(stream, outbound, destination).await
+    proxy_tcp_connection_data_forwarding(stream, session, outbound, destination).await
 }
 
 /// Forward data between stream and outbound connection
@@ -376,6 +376,7 @@ async fn proxy_tcp_connection_with_synack_internal(
 /// Stream 内部的 reader 和 writer 已经分离，无锁竞争
 async fn proxy_tcp_connection_data_forwarding(
     stream: Arc<Stream>,
+    session: Arc<Session>,
     outbound: TcpStream,
     destination: SocksAddr,
 ) -> Result<()> {
@@ -393,7 +394,7 @@ async fn proxy_tcp_connection_data_forwarding(
     // ===== 关键改变：不再需要 Arc<Mutex<>> 包装！=====
     // 直接克隆 Arc<Stream> 用于两个任务
     let stream_for_read = Arc::clone(&stream);
-    let stream_for_write = Arc::clone(&stream);
+    let session_for_write = Arc::clone(&session);
     let bytes_to_outbound = Arc::new(AtomicU64::new(0));
     let bytes_to_client = Arc::new(AtomicU64::new(0));
 
@@ -462,6 +463,10 @@ async fn proxy_tcp_connection_data_forwarding(
             );
         }
 
+        // The client has finished sending (end of stream or error): pass the end of
+        // stream on to the target
+        let _ = outbound_write.shutdown().await;
+
         tracing::debug!(
             "[Proxy-Task1] Task completed for stream {} after {} iterations",
             stream_id,
@@ -507,9 +512,14 @@ async fn proxy_tcp_connection_data_forwarding(
                 }
             };
 
-            // 写入 stream（使用 send_data，完全无锁！）
+            // Write through the session and wait for it: the FIN that follows the last
+            // data frame is written by this task too and can therefore not overtake data
+            // (frames queued with send_data are written later by another task)
             use bytes::Bytes;
-            if let Err(e) = stream_for_write.send_data(Bytes::copy_from_slice(&buf[..n])) {
+            if let Err(e) = session_for_write
+                .write_data_frame(stream_id, Bytes::copy_from_slice(&buf[..n]))
+                .await
+            {
                 tracing::error!(
                     "[Proxy-Task2] Stream write error (stream_id={}, iteration={}): {:?}",
                     stream_id,
@@ -527,6 +537,11 @@ async fn proxy_tcp_connection_data_forwarding(
                 iteration
             );
         }
+
+        // The target has finished sending: tell the client with a FIN
+        let _ = session_for_write
+            .write_control_frame(Frame::control(Command::Fin, stream_id))
+            .await;
 
         tracing::debug!(
             "[Proxy-Task2] Task completed for stream {} after {} iterations",
